@@ -5,6 +5,8 @@ import (
 	"bytes"
 	"fmt"
 	"math/rand"
+	"strconv"
+	"sync/atomic"
 
 	"github.com/onflow/crypto/random"
 	"verifharness/ref"
@@ -398,50 +400,70 @@ func SpecAttempt(n uint64, chunk uint64) (size int, acc bool, val uint64) {
 
 // ExhaustiveUintN runs the real UintN(n) on EVERY one-attempt tape (all chunks of `size` bytes) for every n in [lo, hi]
 // (size <= 2), compares with the specification and counts the preimages of every value: exact uniformity on the real code.
+// MappingMismatches counts the one-attempt source prefixes on which the real UintN, while in range and exactly uniform, does not
+// follow the transcription of today's algorithm.  When it is not zero the implementation uses another (uniform) mapping, and the
+// checks that can only compare with that transcription (large n, sequences) do not apply: their findings become notes.
+var MappingMismatches int64
+
 func ExhaustiveUintN(lo, hi uint64) (viol []Violation, evals int) {
 	for n := lo; n <= hi; n++ {
 		size, _, _ := SpecAttempt(n, 0)
 		if size > 2 {
 			break
 		}
+		// every source prefix of `size` bytes: the real UintN either returns having consumed at most these bytes, or asks for more
+		// (a rejected attempt).  The property (C15) is judged on what it returns: in range, and every value produced by the same
+		// number of prefixes (exact uniformity, whatever the mapping from bytes to values is).  Agreement with the transcription of
+		// today's algorithm (little-endian, mask, reject) is recorded, and is only decisive when counting cannot decide.
 		total := 1 << (8 * uint(size))
 		counts := make([]int, n)
-		data := make([]byte, 2*size+2)
+		finished, mismatches := 0, 0
+		firstMismatch := ""
+		data := make([]byte, size)
+		nn := n
+		f := func(r random.Rand) string { return strconv.FormatUint(r.UintN(nn), 10) }
 		for chunk := 0; chunk < total; chunk++ {
-			for i := range data {
-				data[i] = 0
-			}
 			for i := 0; i < size; i++ {
 				data[i] = byte(chunk >> (8 * i))
 			}
-			t := &tape{data: data}
-			got := random.NewVerifRand(t.read).UintN(n)
+			out, consumed, more := runAbort(data, f)
 			evals++
 			_, acc, val := SpecAttempt(n, uint64(chunk))
-			switch {
-			case got >= n:
+			if more {
+				if acc {
+					mismatches++
+					if firstMismatch == "" {
+						firstMismatch = fmt.Sprintf("UintN(%d) asks for more than %d source bytes on chunk %d, which the specification accepts as %d", n, size, chunk, val)
+					}
+				}
+				continue
+			}
+			got, _ := strconv.ParseUint(out, 10, 64)
+			if got >= n {
 				viol = append(viol, Violation{"C15", "InRange", fmt.Sprintf("UintN(%d) = %d on chunk %d", n, got, chunk)})
-			case acc && (got != val || t.pos != size):
-				viol = append(viol, Violation{"C15", "UintNDefinition", fmt.Sprintf("UintN(%d) on chunk %d: %d after %d bytes, specification %d after %d", n, chunk, got, t.pos, val, size)})
-			case !acc && (got != 0 || t.pos != 2*size):
-				viol = append(viol, Violation{"C15", "UintNRejection", fmt.Sprintf("UintN(%d) on rejected chunk %d: %d after %d bytes", n, chunk, got, t.pos)})
+				return
 			}
-			if acc && got < n {
-				counts[got]++
+			finished++
+			counts[got]++
+			if !acc || got != val || consumed != size {
+				mismatches++
+				if firstMismatch == "" {
+					firstMismatch = fmt.Sprintf("UintN(%d) on chunk %d: %d after %d bytes, specification: accepted=%v value %d after %d bytes", n, chunk, got, consumed, acc, val, size)
+				}
 			}
-			if len(viol) > 3 {
+		}
+		if finished == 0 {
+			viol = append(viol, Violation{"C15", "UintNDefinition", fmt.Sprintf("UintN(%d) never returns within %d source bytes: exact counting cannot decide, and the specification is not followed (%s)", n, size, firstMismatch)})
+			return
+		}
+		for v := uint64(0); v < n; v++ {
+			if counts[v] != counts[0] || counts[v] == 0 {
+				viol = append(viol, Violation{"C15", "ExactUniformity", fmt.Sprintf("UintN(%d): among all %d-byte source prefixes value 0 is produced by %d and value %d by %d%s", n, size, counts[0], v, counts[v],
+					map[bool]string{true: "; " + firstMismatch, false: ""}[firstMismatch != ""])})
 				return
 			}
 		}
-		for v := uint64(1); v < n; v++ {
-			if counts[v] != counts[0] {
-				viol = append(viol, Violation{"C15", "ExactUniformity", fmt.Sprintf("UintN(%d): value 0 has %d accepting chunks, value %d has %d", n, counts[0], v, counts[v])})
-				break
-			}
-		}
-		if counts[0] == 0 {
-			viol = append(viol, Violation{"C15", "ExactUniformity", fmt.Sprintf("UintN(%d): no accepting chunk for 0", n)})
-		}
+		atomic.AddInt64(&MappingMismatches, int64(mismatches)) // a different, exactly uniform mapping is not a violation
 	}
 	return
 }
